@@ -369,5 +369,18 @@ EXPLANATION = EXPLANATION + (' (R11) the chain that makes a guaranteed send end 
                              'until the first success, FragmentSender re-sends a failed fragment while the mode it was constructed with is not NONE, and nothing '
                              'but the constructors writes a retry mode.')
 
+def r_shared_r12(ctx):
+    """a retransmission carries the number the message was first sent under (shared C04.R3): a re-sent message or fragment under a
+    number the peer has already recorded is dropped there as a duplicate while its datagram is acknowledged - the callback reports
+    True for a message the peer never accepted"""
+    from . import c04 as _m
+    from .c02 import _Sub
+    _m.r3(_Sub(ctx, "C07.R12"))
+
+
+EXPLANATION = EXPLANATION + (' (R12) every retransmission carries the message number first used, per fragment in fragment order (shared C04.R3): under a number '
+                             'the peer has already recorded the copy is dropped as a duplicate while its datagram is acknowledged, and True is reported for a '
+                             'message that never arrived.')
+
 RULES = [("C07.R1", r1), ("C07.R2", r2), ("C07.R3", r3), ("C07.R4", r4), ("C07.R5", r_enum), ("C07.R6", r6), ("C07.R7", r7), ("C07.R8", r_shared_r8), ("C07.R9", r_shared_r9),
-         ("C07.R10", r_shared_r10), ("C07.R11", r_shared_r11)]
+         ("C07.R10", r_shared_r10), ("C07.R11", r_shared_r11), ("C07.R12", r_shared_r12)]
